@@ -37,6 +37,17 @@ Proof. exact (@HelperTC.osb_is_TC). Qed.
 Print Assumptions C05_helper_value.
 End M_C05_helper_value.
 
+(* ... and so does the model of the helper that the extracted driver evaluates and the correspondence compares with multistage.optimal_steps_binomial on generated (n, s) (Binomial.optimal_steps_binomial: cache_step with the dictionary explicit, started empty, fuel n + 2): = TC n s on the whole domain *)
+Module M_C05_helper_model_value.
+Import HelperTC.
+Theorem C05_helper_model_value :
+  forall (tr : NAdvance.traj) (n s : Z),
+         1 <= n ->
+         1 <= s \/ n = 1 /\ 0 <= s -> Binomial.optimal_steps_binomial n s = Actions.Ok (Inst.TC tr n s).
+Proof. exact (@HelperTC.model_osb_is_TC). Qed.
+Print Assumptions C05_helper_model_value.
+End M_C05_helper_model_value.
+
 (* ... and outside that domain (n <= 0, or s < min(1, n - 1)) both helpers raise ValueError before any recursion *)
 Module M_C05_helper_rejects.
 Import HelperGenSpec.
